@@ -264,7 +264,9 @@ func makeFieldOptValueHandling(h configHandling) func(...string) Option {
 			if o.fieldHandlingTree == nil {
 				o.fieldHandlingTree = newFieldHandlingTree()
 			}
-			o.fieldHandlingTree.merge(table, PathSep(o.pathSep))
+			// the names are in dot notation, whatever separates path segments in the
+			// configuration (and wherever PathSep stands among the options)
+			o.fieldHandlingTree.merge(table, PathSep("."))
 		}
 	}
 }
